@@ -498,7 +498,9 @@ class Samples(BaseSamples):
         mean_scaled = self.xp.mean(scaled)
         self.log_evidence_error = (
             self.xp.sqrt(
-                self.xp.sum((scaled - mean_scaled) ** 2) / (n * (n - 1))
+                # two divisions: n * (n - 1) overflows int32 for n > 46341,
+                # which JAX (64-bit off) refuses as an operand
+                self.xp.sum((scaled - mean_scaled) ** 2) / n / (n - 1)
             )
             / mean_scaled
         )
